@@ -1,6 +1,819 @@
-//! C14 — not implemented yet.
+//! C14 — Bezier evaluate, derivative, split and conversions obey the Bernstein identities.
+//!
+//! The four curve types (Quadratic/Cubic x 2D/3D, `vek::bezier::repr_c`) are driven through one
+//! uniform trait (`Curve`, implemented by macro; control points are written and read through the
+//! public fields) and judged against `oracle` (Bernstein sum, de Casteljau, power basis, hodograph,
+//! subdivision) on plain arrays, in exact rationals and in f64/f32.
+
+pub mod oracle;
+
+use oracle as or;
+use std::fmt::Debug;
+use vek::bezier::repr_c::{CubicBezier2, CubicBezier3, QuadraticBezier2, QuadraticBezier3};
+use vek::geom::repr_c::{LineSegment2, LineSegment3};
+use vek::mat::repr_c::column_major as cm;
+use vek::mat::repr_c::row_major as rm;
+use vek::vec::repr_c::{Vec2, Vec3, Vec4};
+use vkit::refmath as rf;
+use vkit::vk::{self, MatN};
 use vkit::*;
 
+// ---------------------------------------------------------------------------------------------
+// scalar domain extras
+// ---------------------------------------------------------------------------------------------
+
+/// What this crate needs on top of `vkit::Dom`.
+pub trait XDom: Dom {
+    /// Square root when the domain can represent it (`Rat`: only if rational) — never poisons.
+    fn sqrt_exact(self) -> Option<Self>;
+    /// A parameter in [0,1) from the tape: floats draw continuously, `Rat` a fraction n/64.
+    fn unit(t: &mut Tape) -> Self;
+}
+impl XDom for Rat {
+    fn sqrt_exact(self) -> Option<Rat> {
+        self.exact_sqrt()
+    }
+    fn unit(t: &mut Tape) -> Rat {
+        Rat::frac(t.int(0, 63), 64)
+    }
+}
+impl XDom for f64 {
+    fn sqrt_exact(self) -> Option<f64> {
+        Some(self.sqrt())
+    }
+    fn unit(t: &mut Tape) -> f64 {
+        t.unit_f64()
+    }
+}
+impl XDom for f32 {
+    fn sqrt_exact(self) -> Option<f32> {
+        Some(self.sqrt())
+    }
+    fn unit(t: &mut Tape) -> f32 {
+        t.unit_f64() as f32
+    }
+}
+
+// ---------------------------------------------------------------------------------------------
+// uniform access to the four vek curve types
+// ---------------------------------------------------------------------------------------------
+
+pub trait Curve<S: XDom, const N: usize, const D: usize>: Copy + Debug + PartialEq {
+    const NAME: &'static str;
+    /// Build from control points through the public fields.
+    fn build(p: &[[S; D]; N]) -> Self;
+    /// Read the control points through the public fields.
+    fn read(&self) -> [[S; D]; N];
+    fn v_evaluate(self, t: S) -> [S; D];
+    fn v_derivative(self, t: S) -> [S; D];
+    fn v_tangent(self, t: S) -> [S; D];
+    fn v_split(self, t: S) -> [Self; 2];
+    /// `matrix()` read through its public `rows` field.
+    fn v_matrix() -> [[S; N]; N];
+    /// `T * matrix()` computed with vek's own row-vector * matrix product, as the doc of `matrix()` spells it.
+    fn v_matrix_weights(powers: &[S; N]) -> [S; N];
+    fn v_reversed(self) -> Self;
+    fn v_reverse(&mut self);
+    fn v_flipped(self, axis: usize) -> Self;
+    fn v_flip(&mut self, axis: usize);
+    fn v_from_segment(a: &[S; D], b: &[S; D]) -> Self;
+    fn v_from_range(a: &[S; D], b: &[S; D]) -> Self;
+    /// into_vecN / into_tuple / into_array / From<VecN> / From<curve> for VecN keep the control-point order.
+    fn v_containers(p: &[[S; D]; N], cx: &mut Cx) -> CaseResult;
+}
+
+macro_rules! impl_curve {
+    ($Curve:ident, $name:expr, $N:expr, $D:expr, $VecD:ident, $mk:path, $rd:path, $Seg:ident,
+     $VecN:ident, $mkn:path, $rdn:path, $into_vecn:ident,
+     [$(($f:ident, $i:expr, $vx:ident)),+],
+     [$(($ax:expr, $flipped:ident, $flip:ident)),+]) => {
+        impl<S: XDom> Curve<S, $N, $D> for $Curve<S> {
+            const NAME: &'static str = $name;
+            fn build(p: &[[S; $D]; $N]) -> Self {
+                $Curve { $($f: $mk(&p[$i])),+ }
+            }
+            fn read(&self) -> [[S; $D]; $N] {
+                [$($rd(&self.$f)),+]
+            }
+            fn v_evaluate(self, t: S) -> [S; $D] {
+                $rd(&self.evaluate(t))
+            }
+            fn v_derivative(self, t: S) -> [S; $D] {
+                $rd(&self.evaluate_derivative(t))
+            }
+            fn v_tangent(self, t: S) -> [S; $D] {
+                $rd(&self.normalized_tangent(t))
+            }
+            fn v_split(self, t: S) -> [Self; 2] {
+                self.split(t)
+            }
+            fn v_matrix() -> [[S; $N]; $N] {
+                <$Curve<S>>::matrix().to_arr()
+            }
+            fn v_matrix_weights(powers: &[S; $N]) -> [S; $N] {
+                $rdn(&($mkn(powers) * <$Curve<S>>::matrix()))
+            }
+            fn v_reversed(self) -> Self {
+                self.reversed()
+            }
+            fn v_reverse(&mut self) {
+                self.reverse()
+            }
+            fn v_flipped(self, axis: usize) -> Self {
+                match axis {
+                    $($ax => self.$flipped(),)+
+                    _ => unreachable!(),
+                }
+            }
+            fn v_flip(&mut self, axis: usize) {
+                match axis {
+                    $($ax => self.$flip(),)+
+                    _ => unreachable!(),
+                }
+            }
+            fn v_from_segment(a: &[S; $D], b: &[S; $D]) -> Self {
+                <$Curve<S> as From<$Seg<S>>>::from($Seg { start: $mk(a), end: $mk(b) })
+            }
+            fn v_from_range(a: &[S; $D], b: &[S; $D]) -> Self {
+                <$Curve<S> as From<std::ops::Range<$VecD<S>>>>::from($mk(a)..$mk(b))
+            }
+            fn v_containers(p: &[[S; $D]; $N], cx: &mut Cx) -> CaseResult {
+                let c = <Self as Curve<S, $N, $D>>::build(p);
+                let v: $VecN<$VecD<S>> = c.$into_vecn();
+                check_eq!(cx, [$($rd(&v.$vx)),+], *p, "{}::{}", $name, stringify!($into_vecn));
+                let v: $VecN<$VecD<S>> = c.into();
+                check_eq!(cx, [$($rd(&v.$vx)),+], *p, "From<{}> for {}", $name, stringify!($VecN));
+                let ($($f),+) = c.into_tuple();
+                check_eq!(cx, [$($rd(&$f)),+], *p, "{}::into_tuple", $name);
+                let a = c.into_array();
+                check_eq!(cx, a.len(), $N, "{}::into_array length", $name);
+                check_eq!(cx, [$($rd(&a[$i])),+], *p, "{}::into_array", $name);
+                let c2 = <$Curve<S>>::from($VecN { $($vx: $mk(&p[$i])),+ });
+                check_eq!(cx, c2.read(), *p, "From<{}> for {}", stringify!($VecN), $name);
+                let c3 = <$Curve<S>>::from($VecN::from(($($mk(&p[$i])),+)));
+                check_eq!(cx, c3.read(), *p, "{} from tuple (via {})", $name, stringify!($VecN));
+                let c4 = <$Curve<S>>::from($VecN::from([$($mk(&p[$i])),+]));
+                check_eq!(cx, c4.read(), *p, "{} from array (via {})", $name, stringify!($VecN));
+                Ok(())
+            }
+        }
+    };
+}
+
+impl_curve!(QuadraticBezier2, "QuadraticBezier2", 3, 2, Vec2, vk::v2, vk::a2, LineSegment2, Vec3, vk::v3, vk::a3, into_vec3,
+    [(start, 0, x), (ctrl, 1, y), (end, 2, z)],
+    [(0, flipped_x, flip_x), (1, flipped_y, flip_y)]);
+impl_curve!(QuadraticBezier3, "QuadraticBezier3", 3, 3, Vec3, vk::v3, vk::a3, LineSegment3, Vec3, vk::v3, vk::a3, into_vec3,
+    [(start, 0, x), (ctrl, 1, y), (end, 2, z)],
+    [(0, flipped_x, flip_x), (1, flipped_y, flip_y), (2, flipped_z, flip_z)]);
+impl_curve!(CubicBezier2, "CubicBezier2", 4, 2, Vec2, vk::v2, vk::a2, LineSegment2, Vec4, vk::v4, vk::a4, into_vec4,
+    [(start, 0, x), (ctrl0, 1, y), (ctrl1, 2, z), (end, 3, w)],
+    [(0, flipped_x, flip_x), (1, flipped_y, flip_y)]);
+impl_curve!(CubicBezier3, "CubicBezier3", 4, 3, Vec3, vk::v3, vk::a3, LineSegment3, Vec4, vk::v4, vk::a4, into_vec4,
+    [(start, 0, x), (ctrl0, 1, y), (ctrl1, 2, z), (end, 3, w)],
+    [(0, flipped_x, flip_x), (1, flipped_y, flip_y), (2, flipped_z, flip_z)]);
+
+/// Degree elevation (quadratic -> cubic).
+pub trait Quad<S: XDom, const D: usize>: Curve<S, 3, D> {
+    type Cubic: Curve<S, 4, D>;
+    fn v_into_cubic(self) -> Self::Cubic;
+    fn v_cubic_from(self) -> Self::Cubic;
+}
+/// Circle approximations (cubic only).
+pub trait Cubic<S: XDom, const D: usize>: Curve<S, 4, D> {
+    fn v_quarter() -> Self;
+    fn v_circle() -> [Self; 4];
+}
+macro_rules! impl_degree {
+    ($Quad:ident, $Cubic:ident, $D:expr) => {
+        impl<S: XDom> Quad<S, $D> for $Quad<S> {
+            type Cubic = $Cubic<S>;
+            fn v_into_cubic(self) -> $Cubic<S> {
+                self.into_cubic()
+            }
+            fn v_cubic_from(self) -> $Cubic<S> {
+                <$Cubic<S> as From<$Quad<S>>>::from(self)
+            }
+        }
+        impl<S: XDom> Cubic<S, $D> for $Cubic<S> {
+            fn v_quarter() -> Self {
+                <$Cubic<S>>::unit_quarter_circle()
+            }
+            fn v_circle() -> [Self; 4] {
+                <$Cubic<S>>::unit_circle()
+            }
+        }
+    };
+}
+impl_degree!(QuadraticBezier2, CubicBezier2, 2);
+impl_degree!(QuadraticBezier3, CubicBezier3, 3);
+
+// ---------------------------------------------------------------------------------------------
+// helpers
+// ---------------------------------------------------------------------------------------------
+
+macro_rules! check_pts {
+    ($cx:expr, $S:ty, $got:expr, $want:expr, $scale:expr, $k:expr, $($arg:tt)*) => {{
+        let (g, w) = ($got, $want);
+        for i in 0..g.len() {
+            check_vec!($cx, $S, g[i], w[i], $scale, $k, "{} [control point {}]", format!($($arg)*), i);
+        }
+    }};
+}
+
+fn map_pts<S: Dom, const N: usize, const D: usize, const E: usize>(p: &[[S; D]; N], f: impl Fn(&[S; D]) -> [S; E]) -> [[S; E]; N] {
+    let mut r = [[S::zero(); E]; N];
+    for i in 0..N {
+        r[i] = f(&p[i]);
+    }
+    r
+}
+
+/// Control points: moderate general values; 1/16 of the cases are forced collinear and 1/16 closed
+/// (end = start) so the degenerate classes are visited (and labelled).
+fn gen_points<S: XDom, const N: usize, const D: usize>(t: &mut Tape, cx: &mut Cx) -> [[S; D]; N] {
+    let mut p = [[S::zero(); D]; N];
+    for i in 0..N {
+        for j in 0..D {
+            p[i][j] = S::any(t, 9);
+        }
+    }
+    match t.below(16) {
+        15 => {
+            for i in 2..N {
+                let k = S::small(t, 3);
+                for j in 0..D {
+                    p[i][j] = p[0][j] + k * (p[1][j] - p[0][j]);
+                }
+            }
+            cx.label("forced-collinear");
+        }
+        14 => {
+            p[N - 1] = p[0];
+            cx.label("closed");
+        }
+        _ => {}
+    }
+    p
+}
+
+/// Parameter: special values {0, 1/2, 1}, proper fractions, continuous values in [0,1), and values outside [0,1].
+fn gen_param<S: XDom>(t: &mut Tape) -> S {
+    match t.below(8) {
+        0 => {
+            let (n, d) = t.pick(&[(0i64, 1i64), (1, 2), (1, 1)]);
+            S::q(n, d)
+        }
+        1 | 2 | 3 => {
+            let d = t.int(2, 16);
+            let n = t.int(1, d - 1);
+            S::q(n, d)
+        }
+        4 | 5 => S::unit(t),
+        _ => S::any(t, 3),
+    }
+}
+
+fn special<S: XDom>(t: S) -> bool {
+    t == S::zero() || t == S::one() || t == S::q(1, 2)
+}
+
+fn classify_param<S: XDom>(cx: &mut Cx, t: S) {
+    if special(t) {
+        cx.label("t-special(0,1/2,1)");
+    } else if t < S::zero() {
+        cx.label("t<0");
+    } else if t > S::one() {
+        cx.label("t>1");
+    } else {
+        cx.label("t-inside");
+    }
+}
+
+fn powi(x: f64, n: usize) -> f64 {
+    x.powi(n as i32)
+}
+
+// ---------------------------------------------------------------------------------------------
+// core case: evaluate / derivative / split / matrix / reverse / flips / segment / containers
+// ---------------------------------------------------------------------------------------------
+
+fn core_case<S: XDom, C: Curve<S, N, D>, const N: usize, const D: usize>(tp: &mut Tape, cx: &mut Cx) -> CaseResult {
+    let n = N - 1;
+    let p: [[S; D]; N] = gen_points(tp, cx);
+    let t: S = gen_param(tp);
+    let u: S = gen_param(tp);
+    classify_param(cx, t);
+    if u < S::zero() || u > S::one() {
+        cx.label("u-outside");
+    }
+    let col = or::collinear(&p);
+    if col {
+        cx.label("collinear");
+    }
+    cx.set_nontrivial(!col && !special(t));
+    sample!(cx, "{} {} P={:?} t={:?} u={:?}", S::NAME, C::NAME, p, t, u);
+
+    let c = C::build(&p);
+    check_eq!(cx, c.read(), p, "field round trip");
+    let pmax = or::pts_max(&p).max(1.0);
+    let a = or::spread(t);
+    let b = or::spread(u);
+    let sc = pmax * powi(a, n);
+    let tmax = t.f().abs().max(1.0);
+    let sc_pow = 8.0 * pmax * powi(tmax, n) * N as f64; // power-basis forms: coefficients up to 8*pmax
+
+    // --- the three oracles agree (exactly in Rat)
+    let want = or::bernstein(&p, t);
+    let dc = or::casteljau(&p, t);
+    let coeffs = or::power_coeffs(&p);
+    check_vec!(cx, S, dc, want, sc, 32, "oracle: de Casteljau vs Bernstein");
+    check_vec!(cx, S, or::poly_eval(&coeffs, t), want, sc_pow, 64, "oracle: power basis vs Bernstein");
+
+    // --- evaluate
+    let got = c.v_evaluate(t);
+    check_vec!(cx, S, got, want, sc, 32, "evaluate(t) vs Bernstein sum");
+    check_vec!(cx, S, got, dc, sc, 32, "evaluate(t) vs de Casteljau");
+    check_vec!(cx, S, c.v_evaluate(S::zero()), p[0], pmax, 4, "evaluate(0) = start");
+    check_vec!(cx, S, c.v_evaluate(S::one()), p[n], pmax, 4, "evaluate(1) = end");
+
+    // --- derivative: hodograph and d/dt of the power-basis polynomial
+    let dsc = 2.0 * n as f64 * pmax * powi(a, n - 1);
+    let dh = or::hodograph(&p, t);
+    let dp = or::poly_deriv(&coeffs, t);
+    check_vec!(cx, S, dh, dp, sc_pow * n as f64, 64, "oracle: hodograph vs power-basis derivative");
+    let gd = c.v_derivative(t);
+    check_vec!(cx, S, gd, dh, dsc, 32, "evaluate_derivative(t) vs hodograph");
+    check_vec!(cx, S, gd, dp, sc_pow * n as f64, 64, "evaluate_derivative(t) vs d/dt of the power-basis polynomial");
+
+    // --- split(t) -> [L, R]
+    {
+        let [l, r] = c.v_split(t);
+        let (wl, wr) = or::subdivide(&p, t);
+        check_pts!(cx, S, l.read(), wl, sc, 32, "split(t)[0] vs de Casteljau subdivision");
+        check_pts!(cx, S, r.read(), wr, sc, 32, "split(t)[1] vs de Casteljau subdivision");
+        check_vec!(cx, S, l.read()[n], want, sc, 32, "split(t)[0].end = C(t)");
+        check_vec!(cx, S, r.read()[0], want, sc, 32, "split(t)[1].start = C(t)");
+        check_vec!(cx, S, l.read()[n], r.read()[0], sc, 32, "split halves meet");
+        check_vec!(cx, S, l.read()[0], p[0], pmax, 4, "split(t)[0].start = start");
+        check_vec!(cx, S, r.read()[n], p[n], pmax, 4, "split(t)[1].end = end");
+        // as functions of u (vek's evaluate on the halves vs the oracle on the original control points)
+        let scu = n as f64 * pmax * powi(a * b, n);
+        let one = S::one();
+        let cl = or::bernstein(&p, t * u);
+        let cr = or::bernstein(&p, t + (one - t) * u);
+        check_vec!(cx, S, l.v_evaluate(u), cl, scu, 64, "split(t)[0](u) = C(t*u)");
+        check_vec!(cx, S, r.v_evaluate(u), cr, scu, 64, "split(t)[1](u) = C(t+(1-t)u)");
+        check_vec!(cx, S, or::bernstein(&l.read(), u), cl, scu, 64, "Bernstein(split(t)[0])(u) = C(t*u)");
+        check_vec!(cx, S, or::bernstein(&r.read(), u), cr, scu, 64, "Bernstein(split(t)[1])(u) = C(t+(1-t)u)");
+    }
+
+    // --- matrix(): [1,t,..,t^n] * M dotted with the control points
+    {
+        let m = C::v_matrix();
+        check_eq!(cx, m, or::bernstein_matrix::<S, N>(), "matrix() entries vs (-1)^(k-j) C(n,k) C(k,j)");
+        let mut pw = [S::one(); N];
+        for k in 1..N {
+            pw[k] = pw[k - 1] * t;
+        }
+        let bw = or::bern_weights(n, t);
+        for (what, w) in [("[1,t,..]*matrix() (reference product)", rf::vecmat(&pw, &m)), ("[1,t,..]*matrix() (vek product)", C::v_matrix_weights(&pw))] {
+            let mut r = [S::zero(); D];
+            for i in 0..N {
+                check_close!(cx, S, w[i], bw[i], 8.0 * powi(tmax, n), 64, "{}: weight {} vs Bernstein weight", what, i);
+                for j in 0..D {
+                    r[j] = r[j] + w[i] * p[i][j];
+                }
+            }
+            check_vec!(cx, S, r, want, sc_pow, 64, "dot({}, P) = C(t)", what);
+            check_vec!(cx, S, r, got, sc_pow, 64, "dot({}, P) = evaluate(t)", what);
+        }
+    }
+
+    // --- reversed / reverse
+    {
+        let r = c.v_reversed();
+        let mut rp = p;
+        rp.reverse();
+        check_eq!(cx, r.read(), rp, "reversed() control points");
+        let mut m = c;
+        m.v_reverse();
+        check_eq!(cx, m, r, "reverse() in place = reversed()");
+        check_eq!(cx, r.v_reversed(), c, "reversed().reversed()");
+        check_vec!(cx, S, r.v_evaluate(t), or::bernstein(&p, S::one() - t), sc, 32, "reversed()(t) = C(1-t)");
+    }
+
+    // --- flips
+    for ax in 0..D {
+        let f = c.v_flipped(ax);
+        let neg = |q: &[S; D]| {
+            let mut q = *q;
+            q[ax] = -q[ax];
+            q
+        };
+        check_eq!(cx, f.read(), map_pts(&p, neg), "flipped_{} control points", ["x", "y", "z"][ax]);
+        let mut m = c;
+        m.v_flip(ax);
+        check_eq!(cx, m, f, "flip_{} in place = flipped_{}", ["x", "y", "z"][ax], ["x", "y", "z"][ax]);
+        check_vec!(cx, S, f.v_evaluate(t), neg(&want), sc, 32, "flipped_{}()(t)", ["x", "y", "z"][ax]);
+    }
+
+    // --- From<LineSegment> / From<Range>: the straight line start + t (end - start)
+    {
+        let (s0, s1) = (p[0], p[n]);
+        let sg = C::v_from_segment(&s0, &s1);
+        let rg = C::v_from_range(&s0, &s1);
+        check_eq!(cx, rg, sg, "From<Range> = From<LineSegment>");
+        let mut wp = [[S::zero(); D]; N];
+        for i in 0..N {
+            for j in 0..D {
+                wp[i][j] = s0[j] + S::q(i as i64, n as i64) * (s1[j] - s0[j]);
+            }
+        }
+        check_pts!(cx, S, sg.read(), wp, pmax, 16, "From<LineSegment> control points at i/n along the segment");
+        check_eq!(cx, sg.read()[0], s0, "From<LineSegment> start");
+        check_eq!(cx, sg.read()[n], s1, "From<LineSegment> end");
+        let mut wl = [S::zero(); D];
+        for j in 0..D {
+            wl[j] = s0[j] + t * (s1[j] - s0[j]);
+        }
+        check_vec!(cx, S, sg.v_evaluate(t), wl, 2.0 * sc, 32, "From<LineSegment>(t) = start + t (end - start)");
+        let mut wd = [S::zero(); D];
+        for j in 0..D {
+            wd[j] = s1[j] - s0[j];
+        }
+        check_vec!(cx, S, sg.v_derivative(t), wd, 2.0 * dsc, 32, "From<LineSegment> derivative = end - start");
+    }
+
+    // --- container conversions keep the order
+    C::v_containers(&p, cx)?;
+    Ok(())
+}
+
+// ---------------------------------------------------------------------------------------------
+// transforms: Mat * curve (every accepted shape, both layouts), 2D <-> 3D
+// ---------------------------------------------------------------------------------------------
+
+pub trait Tr<S: XDom, const N: usize, const D: usize>: Curve<S, N, D> {
+    fn transforms(p: &[[S; D]; N], t: S, tp: &mut Tape, cx: &mut Cx) -> CaseResult;
+}
+
+macro_rules! impl_tr2 {
+    ($Curve2:ident, $Curve3:ident, $N:expr) => {
+        impl<S: XDom> Tr<S, $N, 2> for $Curve2<S> {
+            fn transforms(p: &[[S; 2]; $N], t: S, tp: &mut Tape, cx: &mut Cx) -> CaseResult {
+                const N: usize = $N;
+                let n = N - 1;
+                let c = <Self as Curve<S, N, 2>>::build(p);
+                let a2: [[S; 2]; 2] = vk::gen_mat(tp, 5);
+                let mut a3: [[S; 3]; 3] = vk::gen_mat(tp, 5);
+                if tp.chance(64) {
+                    a3[2] = [S::zero(), S::zero(), S::one()];
+                    cx.label("affine-last-row");
+                } else {
+                    cx.label("general-last-row");
+                }
+                sample!(cx, "{} {} P={:?} t={:?} A2={:?} A3={:?}", S::NAME, <Self as Curve<S, N, 2>>::NAME, p, t, a2, a3);
+                let pmax = or::pts_max(p).max(1.0);
+                let an = powi(or::spread(t), n);
+                let ct = or::bernstein(p, t);
+                // 2x2: plain matrix * vector on every control point
+                let sc2 = 2.0 * vk::mat_max(&a2).max(1.0) * pmax;
+                let want_pts = map_pts(p, |q| rf::matvec(&a2, q));
+                let want_ct = rf::matvec(&a2, &ct);
+                for (what, got) in [("row-major Mat2", rm::Mat2::<S>::from_arr(&a2) * c), ("column-major Mat2", cm::Mat2::<S>::from_arr(&a2) * c)] {
+                    check_pts!(cx, S, got.read(), want_pts, sc2, 16, "{} * curve: control points", what);
+                    check_vec!(cx, S, got.v_evaluate(t), want_ct, sc2 * an, 32, "({} * curve)(t) = M * C(t)", what);
+                }
+                // 3x3: as a 2D point (w = 1), x and y of the product, no division (mul_point_2d)
+                let apply = |q: &[S; 2]| {
+                    let h = rf::matvec(&a3, &[q[0], q[1], S::one()]);
+                    [h[0], h[1]]
+                };
+                let sc3 = 3.0 * vk::mat_max(&a3).max(1.0) * pmax;
+                let want_pts = map_pts(p, apply);
+                let want_ct = apply(&ct);
+                for (what, got) in [("row-major Mat3", rm::Mat3::<S>::from_arr(&a3) * c), ("column-major Mat3", cm::Mat3::<S>::from_arr(&a3) * c)] {
+                    check_pts!(cx, S, got.read(), want_pts, sc3, 16, "{} * curve: control points (as 2D points)", what);
+                    check_vec!(cx, S, got.v_evaluate(t), want_ct, sc3 * an, 32, "({} * curve)(t) = M * (C(t),1)", what);
+                }
+                // into_3d: z = 0
+                let c3: $Curve3<S> = c.into_3d();
+                check_eq!(cx, c3.read(), map_pts(p, |q| [q[0], q[1], S::zero()]), "into_3d control points");
+                check_eq!(cx, <$Curve3<S> as From<$Curve2<S>>>::from(c), c3, "From<2D curve> for 3D curve = into_3d");
+                check_vec!(cx, S, c3.v_evaluate(t), [ct[0], ct[1], S::zero()], pmax * an, 32, "into_3d()(t) = (C(t), 0)");
+                check_eq!(cx, c3.into_2d(), c, "into_3d().into_2d()");
+                Ok(())
+            }
+        }
+    };
+}
+macro_rules! impl_tr3 {
+    ($Curve3:ident, $Curve2:ident, $N:expr) => {
+        impl<S: XDom> Tr<S, $N, 3> for $Curve3<S> {
+            fn transforms(p: &[[S; 3]; $N], t: S, tp: &mut Tape, cx: &mut Cx) -> CaseResult {
+                const N: usize = $N;
+                let n = N - 1;
+                let c = <Self as Curve<S, N, 3>>::build(p);
+                let a3: [[S; 3]; 3] = vk::gen_mat(tp, 5);
+                let mut a4: [[S; 4]; 4] = vk::gen_mat(tp, 5);
+                if tp.chance(64) {
+                    a4[3] = [S::zero(), S::zero(), S::zero(), S::one()];
+                    cx.label("affine-last-row");
+                } else {
+                    cx.label("general-last-row");
+                }
+                sample!(cx, "{} {} P={:?} t={:?} A3={:?} A4={:?}", S::NAME, <Self as Curve<S, N, 3>>::NAME, p, t, a3, a4);
+                let pmax = or::pts_max(p).max(1.0);
+                let an = powi(or::spread(t), n);
+                let ct = or::bernstein(p, t);
+                // 3x3: plain matrix * vector on every control point
+                let sc3 = 3.0 * vk::mat_max(&a3).max(1.0) * pmax;
+                let want_pts = map_pts(p, |q| rf::matvec(&a3, q));
+                let want_ct = rf::matvec(&a3, &ct);
+                for (what, got) in [("row-major Mat3", rm::Mat3::<S>::from_arr(&a3) * c), ("column-major Mat3", cm::Mat3::<S>::from_arr(&a3) * c)] {
+                    check_pts!(cx, S, got.read(), want_pts, sc3, 16, "{} * curve: control points", what);
+                    check_vec!(cx, S, got.v_evaluate(t), want_ct, sc3 * an, 32, "({} * curve)(t) = M * C(t)", what);
+                }
+                // 4x4: as a point (w = 1), x y z of the product, no division (mul_point)
+                let apply = |q: &[S; 3]| {
+                    let h = rf::matvec(&a4, &[q[0], q[1], q[2], S::one()]);
+                    [h[0], h[1], h[2]]
+                };
+                let sc4 = 4.0 * vk::mat_max(&a4).max(1.0) * pmax;
+                let want_pts = map_pts(p, apply);
+                let want_ct = apply(&ct);
+                for (what, got) in [("row-major Mat4", rm::Mat4::<S>::from_arr(&a4) * c), ("column-major Mat4", cm::Mat4::<S>::from_arr(&a4) * c)] {
+                    check_pts!(cx, S, got.read(), want_pts, sc4, 16, "{} * curve: control points (as points)", what);
+                    check_vec!(cx, S, got.v_evaluate(t), want_ct, sc4 * an, 32, "({} * curve)(t) = M * (C(t),1)", what);
+                }
+                // into_2d: z dropped
+                let c2: $Curve2<S> = c.into_2d();
+                check_eq!(cx, c2.read(), map_pts(p, |q| [q[0], q[1]]), "into_2d control points");
+                check_eq!(cx, <$Curve2<S> as From<$Curve3<S>>>::from(c), c2, "From<3D curve> for 2D curve = into_2d");
+                check_vec!(cx, S, c2.v_evaluate(t), [ct[0], ct[1]], pmax * an, 32, "into_2d()(t) = C(t).xy");
+                check_eq!(cx, c2.into_3d().read(), map_pts(p, |q| [q[0], q[1], S::zero()]), "into_2d().into_3d() control points");
+                Ok(())
+            }
+        }
+    };
+}
+impl_tr2!(QuadraticBezier2, QuadraticBezier3, 3);
+impl_tr2!(CubicBezier2, CubicBezier3, 4);
+impl_tr3!(QuadraticBezier3, QuadraticBezier2, 3);
+impl_tr3!(CubicBezier3, CubicBezier2, 4);
+
+fn transform_case<S: XDom, C: Tr<S, N, D>, const N: usize, const D: usize>(tp: &mut Tape, cx: &mut Cx) -> CaseResult {
+    let p: [[S; D]; N] = gen_points(tp, cx);
+    let t: S = gen_param(tp);
+    classify_param(cx, t);
+    let col = or::collinear(&p);
+    if col {
+        cx.label("collinear");
+    }
+    cx.set_nontrivial(!col && !special(t));
+    C::transforms(&p, t, tp, cx)
+}
+
+// ---------------------------------------------------------------------------------------------
+// degree elevation
+// ---------------------------------------------------------------------------------------------
+
+fn elevate_case<S: XDom, Q: Quad<S, D>, const D: usize>(tp: &mut Tape, cx: &mut Cx) -> CaseResult {
+    let p: [[S; D]; 3] = gen_points(tp, cx);
+    let t: S = gen_param(tp);
+    classify_param(cx, t);
+    let col = or::collinear(&p);
+    if col {
+        cx.label("collinear");
+    }
+    cx.set_nontrivial(!col && !special(t));
+    sample!(cx, "{} {} P={:?} t={:?}", S::NAME, Q::NAME, p, t);
+    let q = Q::build(&p);
+    let cu = q.v_into_cubic();
+    check_eq!(cx, q.v_cubic_from(), cu, "From<Quadratic> for Cubic = into_cubic()");
+    let pmax = or::pts_max(&p).max(1.0);
+    let a = or::spread(t);
+    let mut want = [[S::zero(); D]; 4];
+    for j in 0..D {
+        want[0][j] = p[0][j];
+        want[1][j] = (p[0][j] + S::i(2) * p[1][j]) / S::i(3);
+        want[2][j] = (S::i(2) * p[1][j] + p[2][j]) / S::i(3);
+        want[3][j] = p[2][j];
+    }
+    let cp = cu.read();
+    check_pts!(cx, S, cp, want, pmax, 16, "into_cubic control points (P0, (P0+2P1)/3, (2P1+P2)/3, P2)");
+    check_eq!(cx, cp[0], p[0], "into_cubic start");
+    check_eq!(cx, cp[3], p[2], "into_cubic end");
+    let wq = or::bernstein(&p, t);
+    check_vec!(cx, S, cu.v_evaluate(t), wq, pmax * powi(a, 3), 32, "into_cubic()(t) = C(t)");
+    check_vec!(cx, S, or::bernstein(&cp, t), wq, pmax * powi(a, 3), 32, "Bernstein(into_cubic())(t) = C(t)");
+    check_vec!(cx, S, cu.v_evaluate(t), q.v_evaluate(t), pmax * powi(a, 3), 32, "into_cubic().evaluate(t) = evaluate(t)");
+    check_vec!(cx, S, cu.v_derivative(t), or::hodograph(&p, t), 6.0 * pmax * powi(a, 2), 32, "into_cubic() derivative = C'(t)");
+    Ok(())
+}
+
+// ---------------------------------------------------------------------------------------------
+// normalized_tangent
+// ---------------------------------------------------------------------------------------------
+
+const PYTH2: [[i64; 3]; 6] = [[3, 4, 0], [5, 12, 0], [8, 15, 0], [1, 0, 0], [7, 24, 0], [20, 21, 0]];
+const PYTH3: [[i64; 3]; 8] = [[1, 2, 2], [2, 3, 6], [1, 4, 8], [2, 6, 9], [3, 4, 0], [0, 0, 1], [4, 4, 7], [6, 6, 7]];
+
+fn tangent_case<S: XDom, C: Curve<S, N, D>, const N: usize, const D: usize>(tp: &mut Tape, cx: &mut Cx) -> CaseResult {
+    let n = N - 1;
+    let mut p: [[S; D]; N] = gen_points(tp, cx);
+    let mut t: S = gen_param(tp);
+    if S::EXACT {
+        // Exact domain: move the last control point so that C'(t) is a vector of rational length
+        // (C'(t) is affine in P_n with coefficient n t^(n-1)).
+        if t == S::zero() {
+            t = S::q(1, 4);
+        }
+        let base = if D == 2 { PYTH2[tp.below(PYTH2.len())] } else { PYTH3[tp.below(PYTH3.len())] };
+        let rot = tp.below(D);
+        let mut s = S::small(tp, 4);
+        if s == S::zero() {
+            s = S::q(1, 2);
+        }
+        let mut v = [S::zero(); D];
+        for j in 0..D {
+            let sign = if tp.bool() { -1 } else { 1 };
+            v[j] = S::i(sign * base[(j + rot) % D]) * s;
+        }
+        let mut p2 = p;
+        p2[n] = p2[n - 1];
+        let rest = or::hodograph(&p2, t);
+        let mut coef = S::i(n as i64);
+        for _ in 1..n {
+            coef = coef * t;
+        }
+        for j in 0..D {
+            p[n][j] = p[n - 1][j] + (v[j] - rest[j]) / coef;
+        }
+        cx.label("rational-length-derivative");
+    }
+    classify_param(cx, t);
+    let col = or::collinear(&p);
+    if col {
+        cx.label("collinear");
+    }
+    sample!(cx, "{} {} P={:?} t={:?}", S::NAME, C::NAME, p, t);
+    let c = C::build(&p);
+    let d = or::hodograph(&p, t);
+    let mut len2 = S::zero();
+    for j in 0..D {
+        len2 = len2 + d[j] * d[j];
+    }
+    let pmax = or::pts_max(&p).max(1.0);
+    let dsc = 2.0 * n as f64 * pmax * powi(or::spread(t), n - 1);
+    let len = match len2.sqrt_exact() {
+        Some(l) if (S::EXACT && l != S::zero()) || l.f() > 1e-3 * dsc => l,
+        _ => {
+            // zero / ill-conditioned / irrational length: normalized_tangent is not called
+            cx.label("tangent-skipped(degenerate)");
+            cx.set_nontrivial(false);
+            return Ok(());
+        }
+    };
+    cx.set_nontrivial(!col && !special(t));
+    let got = c.v_tangent(t);
+    let mut want = [S::zero(); D];
+    for j in 0..D {
+        want[j] = d[j] / len;
+    }
+    let cond = dsc / len.f();
+    check_vec!(cx, S, got, want, cond, 64, "normalized_tangent(t) = C'(t)/|C'(t)|");
+    let mut g2 = S::zero();
+    for j in 0..D {
+        g2 = g2 + got[j] * got[j];
+    }
+    check_close!(cx, S, g2, S::one(), 1.0, 16, "|normalized_tangent(t)|^2 = 1");
+    // parallel to (and along) vek's own derivative
+    let vd = c.v_derivative(t);
+    let mut dot = S::zero();
+    for a in 0..D {
+        dot = dot + got[a] * vd[a];
+        for b in a + 1..D {
+            check_close!(cx, S, got[a] * vd[b] - got[b] * vd[a], S::zero(), dsc * cond, 64, "normalized_tangent x evaluate_derivative = 0 (minor {},{})", a, b);
+        }
+    }
+    check!(cx, dot > S::zero(), "normalized_tangent points along evaluate_derivative (dot = {:?})", dot);
+    Ok(())
+}
+
+// ---------------------------------------------------------------------------------------------
+// unit_quarter_circle / unit_circle on the 1025-point grid t = i/1024 (floats; sqrt(2) is irrational)
+// ---------------------------------------------------------------------------------------------
+
+const GRID: u64 = 1024;
+
+fn circle_case<S: XDom, C: Cubic<S, D>, const D: usize>(idx: u64, cx: &mut Cx) -> CaseResult {
+    let t = S::q(idx as i64, GRID as i64);
+    cx.set_nontrivial(!special(t));
+    cx.label(if idx == 0 || idx == GRID { "endpoint" } else { "interior" });
+    let q = C::v_quarter();
+    let p = q.read();
+    sample!(cx, "{} {} unit_quarter_circle = {:?}, t = {:?}", S::NAME, C::NAME, p, t);
+    let mut e0 = [S::zero(); D];
+    let mut e1 = [S::zero(); D];
+    e0[0] = S::one();
+    e1[1] = S::one();
+    check_eq!(cx, p[0], e0, "unit_quarter_circle().start = unit_x");
+    check_eq!(cx, p[3], e1, "unit_quarter_circle().end = unit_y");
+    check_vec!(cx, S, q.v_evaluate(S::zero()), e0, 1.0, 4, "unit_quarter_circle()(0) = (1,0)");
+    check_vec!(cx, S, q.v_evaluate(S::one()), e1, 1.0, 4, "unit_quarter_circle()(1) = (0,1)");
+    let pt = q.v_evaluate(t);
+    let po = or::bernstein(&p, t);
+    check_vec!(cx, S, pt, po, 2.0, 32, "unit_quarter_circle()(t) vs Bernstein sum of its control points");
+    for (what, v) in [("evaluate", pt), ("Bernstein sum", po)] {
+        let r = v.iter().fold(0.0f64, |s, x| s + x.f() * x.f()).sqrt();
+        check!(cx, (r - 1.0).abs() <= 3e-4, "unit_quarter_circle: radius {} at t={:?} ({}) is not within 0.03% of 1", r, t, what);
+    }
+    for j in 2..D {
+        check_eq!(cx, pt[j], S::zero(), "unit_quarter_circle()(t).z = 0");
+    }
+    // unit_circle(): (north-east, north-west, south-west, south-east) = the sign images of the quarter
+    let cs = C::v_circle();
+    check_eq!(cx, cs[0], q, "unit_circle()[0] = unit_quarter_circle()");
+    let signs: [(i64, i64, &str); 4] = [(1, 1, "north-east"), (-1, 1, "north-west"), (-1, -1, "south-west"), (1, -1, "south-east")];
+    for k in 0..4 {
+        let (sx, sy, name) = signs[k];
+        let img = |v: &[S; D]| {
+            let mut v = *v;
+            v[0] = S::i(sx) * v[0];
+            v[1] = S::i(sy) * v[1];
+            v
+        };
+        check_eq!(cx, cs[k].read(), map_pts(&p, img), "unit_circle()[{}] ({}) control points", k, name);
+        let g = cs[k].v_evaluate(t);
+        check_vec!(cx, S, g, img(&po), 2.0, 32, "unit_circle()[{}] ({})(t) = image of the quarter", k, name);
+        let tol = 8.0 * S::eps();
+        check!(cx, g[0].f() * sx as f64 >= -tol && g[1].f() * sy as f64 >= -tol, "unit_circle()[{}] at t={:?} = {:?} is not in the {} quadrant", k, t, g, name);
+        let r = g.iter().fold(0.0f64, |s, x| s + x.f() * x.f()).sqrt();
+        check!(cx, (r - 1.0).abs() <= 3e-4, "unit_circle()[{}]: radius {} at t={:?}", k, r, t);
+    }
+    Ok(())
+}
+
+// ---------------------------------------------------------------------------------------------
+
 pub fn property() -> Property {
-    Property { id: "C14", rule: "", assumptions: &[], checks: Vec::new(), max_discard_frac: 0.2 }
+    let mut checks = Vec::new();
+    macro_rules! tape {
+        ($name:expr, $about:expr, $len:expr, $q:expr, $f:expr) => {
+            checks.push(Check { name: $name, about: $about, kind: Kind::Tape { len: $len, quick: $q, thorough: $q * 50, f: $f } });
+        };
+    }
+    macro_rules! per_curve {
+        ($dom:ident, $S:ty) => {
+            tape!(concat!("core-quad2-", stringify!($dom)), CORE, 128, 20_000, core_case::<$S, QuadraticBezier2<$S>, 3, 2>);
+            tape!(concat!("core-quad3-", stringify!($dom)), CORE, 128, 20_000, core_case::<$S, QuadraticBezier3<$S>, 3, 3>);
+            tape!(concat!("core-cubic2-", stringify!($dom)), CORE, 128, 20_000, core_case::<$S, CubicBezier2<$S>, 4, 2>);
+            tape!(concat!("core-cubic3-", stringify!($dom)), CORE, 128, 20_000, core_case::<$S, CubicBezier3<$S>, 4, 3>);
+            tape!(concat!("transform-quad2-", stringify!($dom)), TRANSFORM, 256, 20_000, transform_case::<$S, QuadraticBezier2<$S>, 3, 2>);
+            tape!(concat!("transform-quad3-", stringify!($dom)), TRANSFORM, 256, 20_000, transform_case::<$S, QuadraticBezier3<$S>, 3, 3>);
+            tape!(concat!("transform-cubic2-", stringify!($dom)), TRANSFORM, 256, 20_000, transform_case::<$S, CubicBezier2<$S>, 4, 2>);
+            tape!(concat!("transform-cubic3-", stringify!($dom)), TRANSFORM, 256, 20_000, transform_case::<$S, CubicBezier3<$S>, 4, 3>);
+            tape!(concat!("elevate-quad2-", stringify!($dom)), ELEVATE, 64, 20_000, elevate_case::<$S, QuadraticBezier2<$S>, 2>);
+            tape!(concat!("elevate-quad3-", stringify!($dom)), ELEVATE, 96, 20_000, elevate_case::<$S, QuadraticBezier3<$S>, 3>);
+            tape!(concat!("tangent-quad2-", stringify!($dom)), TANGENT, 128, 10_000, tangent_case::<$S, QuadraticBezier2<$S>, 3, 2>);
+            tape!(concat!("tangent-quad3-", stringify!($dom)), TANGENT, 128, 10_000, tangent_case::<$S, QuadraticBezier3<$S>, 3, 3>);
+            tape!(concat!("tangent-cubic2-", stringify!($dom)), TANGENT, 128, 10_000, tangent_case::<$S, CubicBezier2<$S>, 4, 2>);
+            tape!(concat!("tangent-cubic3-", stringify!($dom)), TANGENT, 128, 10_000, tangent_case::<$S, CubicBezier3<$S>, 4, 3>);
+        };
+    }
+    const CORE: &str = "evaluate = Bernstein sum = de Casteljau (t also outside [0,1]), C(0)=start, C(1)=end; evaluate_derivative = hodograph = d/dt of the power-basis polynomial; split(t) = de Casteljau subdivision, L(u)=C(tu), R(u)=C(t+(1-t)u), halves meet at C(t); matrix() entries and dot([1,t,..]*M, P) = C(t); reversed/reverse: C(1-t); flipped_*/flip_*; From<LineSegment>/From<Range> = start + t(end-start); into_vecN/tuple/array and From<VecN> keep the order";
+    const TRANSFORM: &str = "Mat * curve for every accepted shape in both layouts (2D: Mat2, Mat3 as 2D point; 3D: Mat3, Mat4 as point; last row unrestricted, w is dropped without division as mul_point documents): control points and (M*C)(t) = M applied to C(t); into_2d / into_3d and the From impls";
+    const ELEVATE: &str = "into_cubic / From<Quadratic> for Cubic: control points (P0, (P0+2P1)/3, (2P1+P2)/3, P2), same point and same derivative for every t";
+    const TANGENT: &str = "normalized_tangent(t) = C'(t)/|C'(t)| (unit, parallel to and along evaluate_derivative); Rat cases are constructed so that |C'(t)| is rational";
+    const CIRCLE: &str = "unit_quarter_circle: start=(1,0), end=(0,1), |C(t)| within 3e-4 of 1 on the grid t=i/1024, z=0; unit_circle = (NE, NW, SW, SE) sign images, each in its quadrant";
+    per_curve!(rat, Rat);
+    per_curve!(f64, f64);
+    per_curve!(f32, f32);
+    macro_rules! circle {
+        ($name:expr, $f:expr) => {
+            checks.push(Check { name: $name, about: CIRCLE, kind: Kind::Index { total: GRID + 1, quick: GRID + 1, thorough: GRID + 1, f: $f } });
+        };
+    }
+    circle!("circle-cubic2-f64", circle_case::<f64, CubicBezier2<f64>, 2>);
+    circle!("circle-cubic3-f64", circle_case::<f64, CubicBezier3<f64>, 3>);
+    circle!("circle-cubic2-f32", circle_case::<f32, CubicBezier2<f32>, 2>);
+    circle!("circle-cubic3-f32", circle_case::<f32, CubicBezier3<f32>, 3>);
+    Property {
+        id: "C14",
+        rule: "cases are byte tapes (uniform bytes, fixed seed) decoded to control points (|coord| <= 9, small fractions or continuous floats; 1/16 forced collinear, 1/16 closed), parameters t,u (1/8 special {0,1/2,1}, 3/8 proper fractions, 1/4 continuous in [0,1), 1/4 general in [-3,3]) and matrices (|entry| <= 5); a case is non-trivial when the control points are not collinear and t is not in {0,1/2,1} (tangent checks: additionally |C'(t)| is representable and not tiny); circle checks enumerate the grid t=i/1024; distinct = distinct consumed tape prefix / index per check",
+        assumptions: &[
+            "rustc and the proptest runner/shrinker are trusted",
+            "c14::oracle (Bernstein sum, de Casteljau, subdivision, power basis, hodograph on plain arrays) and vkit::refmath are the oracle; they never call vek",
+            "curves, vectors and matrices are built and read through their public fields (start/ctrl/ctrl0/ctrl1/end, x/y/z/w, rows/cols)",
+            "exact rational arithmetic (Rat over i128) decides the polynomial identities; f64/f32 use error bounds k*eps*scale with scale = max|P| * (|t|+|1-t|)^n (sum of |Bernstein weights|)",
+            "matrix(): the doc's `T = [1, t*t, t*t*t]` is read as the monomial vector [1, t, t^2(, t^3)] (the only reading under which the documented identity holds)",
+            "Mat3*2D-curve / Mat4*3D-curve: documented as mul_point_2d / mul_point = `self * Vec::from_point(p)` with the last coordinate dropped (no perspective division), so arbitrary last rows are in scope",
+            "flipped_z/flip_z negate z (their doc comments say `y`/`x`, copy-paste typos; the method name and the property statement are followed)",
+            "unit_quarter_circle / unit_circle are checked in f64 and f32 only (sqrt(2) is irrational)",
+        ],
+        checks,
+        max_discard_frac: 0.2,
+    }
 }
